@@ -9,11 +9,19 @@ BOTH M and P(M) on the same inputs returns different outputs at some position (e
 values, NaN == NaN).  Evaluators: ``onnx.reference.ReferenceEvaluator`` and onnxruntime without graph
 optimisations.  A pass that raises produces no transformed model (counted ``pass_error:<Pass>``; the
 successful prefix is judged instead).
+
+Signature of a violation: the pass sequence is shrunk (ddmin), the pass after which the clause first
+holds is the culprit, and the model is regenerated with one planted gen_exec feature at a time to
+find a feature that alone suffices: ``<clause>|<Pass>|<feature>`` (``<clause>|<Pass>`` for checker
+clauses when no single feature suffices; 'base'/'multi' otherwise).
 """
 
 from __future__ import annotations
 
+import logging
+import os
 import random
+import warnings
 from collections import Counter
 
 import onnx
@@ -219,7 +227,10 @@ def evaluate(case: GE.Case, model: ir.Model, ctx=None, want: str | None = None):
                 count(f"report_only_{what}_renamed")
     if want is not None and not want.startswith("outputs-differ"):
         return found
-    if msg is not None or io_broken:
+    if (msg is not None or io_broken) and want is None:
+        # an invalid model has no defined outputs.  (While shrinking an outputs-differ witness the
+        # comparison is still made, so that the pass that *introduced* the difference is found even
+        # if the model was only made checkable again by a later pass.)
         return found
     # outputs: only evaluators that executed M *and* P(M) on the same input set have a say
     differ: dict[str, dict[int, str]] = {}
@@ -261,22 +272,33 @@ def evaluate(case: GE.Case, model: ir.Model, ctx=None, want: str | None = None):
 
 
 # ---- shrinking and signature -------------------------------------------------------------------------------
-def _violates(case, source, specs, clause) -> bool:
+def _kind(clause: str) -> str:
+    """The checker reports only its first complaint, so while shrinking any rejection counts."""
+    return clause.split(":")[0] if clause.startswith("checker-rejects") else clause
+
+
+def _violates(case, source, specs, clause) -> str | None:
+    """The clause of the same kind that the sequence violates (None if it does not)."""
     model, applied, _, _ = apply_flat(case, source, specs)
     if model is None or len(applied) != len(specs):
-        return False
-    return any(c == clause for c, _ in evaluate(case, model, want=clause))
+        return None
+    for c, _ in evaluate(case, model, want=clause):
+        if _kind(c) == _kind(clause):
+            return c
+    return None
 
 
 def shrink(case: GE.Case, source: str, specs, clause: str):
-    """1-minimal pass sequence for ``clause`` and the pass after which it first holds."""
-    minimal = ddmin(list(specs), lambda sub: _violates(case, source, sub, clause), max_tests=60)
-    culprit = minimal[-1]
+    """1-minimal pass sequence for the kind of ``clause``, the pass after which it first holds, and
+    the exact clause at that point."""
+    minimal = ddmin(list(specs), lambda sub: _violates(case, source, sub, clause) is not None, max_tests=60)
+    culprit, exact = minimal[-1], clause
     for k in range(1, len(minimal) + 1):
-        if _violates(case, source, minimal[:k], clause):
-            culprit = minimal[k - 1]
+        hit = _violates(case, source, minimal[:k], clause)
+        if hit is not None:
+            culprit, exact, minimal = minimal[k - 1], hit, minimal[:k]
             break
-    return minimal, culprit
+    return minimal, culprit, exact
 
 
 def _sufficient(case: GE.Case, source: str, minimal, clause: str, feats) -> bool:
@@ -287,7 +309,7 @@ def _sufficient(case: GE.Case, source: str, minimal, clause: str, feats) -> bool
     except Exception:  # noqa: BLE001 - a feature set that cannot be planted explains nothing
         return False
     small, _ = GE.admit(model, info, random.Random(f"{seed}:inputs"))
-    return small is not None and _violates(small, source, minimal, clause)
+    return small is not None and _violates(small, source, minimal, clause) == clause
 
 
 def attribute(case: GE.Case, source: str, minimal, clause: str, first=(), deep: bool = True):
@@ -319,7 +341,7 @@ def report(ctx, case: GE.Case, source: str, specs, clause: str, message: str) ->
     checker's message class is part of the clause) the last part is dropped when no single feature
     suffices; for output and signature differences it is then 'base' or 'multi'."""
     memo = ctx.__dict__.setdefault("_c05_memo", {})
-    minimal, culprit = shrink(case, source, specs, clause)
+    minimal, culprit, clause = shrink(case, source, specs, clause)
     seen = memo.setdefault((clause, culprit[0]), [])
     needs_detail = clause.startswith(("outputs-differ", "io-changed"))
     detail, feats = attribute(case, source, minimal, clause, first=seen, deep=needs_detail)
@@ -405,7 +427,23 @@ def run_sequence(ctx, case: GE.Case, rng: random.Random, number: int) -> None:
         report(ctx, case, source, flat, clause, message)
 
 
+def _quiet() -> None:
+    """The passes log a warning per skipped initializer etc.; the shard's stderr is a pipe that is
+    only read at the end, so a chatty shard would block on it."""
+    logging.getLogger("onnx_ir").setLevel(logging.CRITICAL)
+    logging.disable(logging.WARNING)
+    warnings.simplefilter("ignore")
+
+
 def run(ctx) -> None:
+    _quiet()
+    # native libraries (onnxruntime, onnx) may also write; results travel through the shard's JSON file
+    devnull = os.open(os.devnull, os.O_WRONLY)
+    for fd in (1, 2):
+        try:
+            os.dup2(devnull, fd)
+        except OSError:
+            pass
     rejected: Counter = Counter()
     n_seq = int(ctx.params.get("sequences", 3))
     for case_id in ctx.case_ids():
@@ -437,6 +475,7 @@ def run(ctx) -> None:
 
 
 def replay(replay_data, ctx) -> None:
+    _quiet()
     model, info = GE.model_from_seed(replay_data["seed"], replay_data["size"], replay_data["features"])
     case, reason = GE.admit(model, info, random.Random(f"{replay_data['seed']}:inputs"))
     if case is None:
@@ -447,7 +486,7 @@ def replay(replay_data, ctx) -> None:
     if model is None or len(applied) != len(specs):
         ctx.note(f"replay: a pass of the witness sequence now raises: {error!r}")
         return
-    for clause, message in evaluate(case, model):
+    for clause, message in evaluate(case, model, want=replay_data["clause"]):
         if clause == replay_data["clause"]:
             ctx.violation(replay_data["signature"], message + f"\n sequence {[label(s) for s in specs]} on model seed "
                           f"{replay_data['seed']} size {replay_data['size']} features {replay_data['features']}", replay_data)
